@@ -951,8 +951,20 @@ def glue_greenlet() -> None:
             # such as gevent's Greenlet may define its truth value otherwise)
             if not GreenletType.__bool__(glet):  # dead or not started
                 return []
-            # otherwise a None frame means it's running
+            # otherwise a None frame means it's running...
             if glet is not greenlet_getcurrent():
+                # ... unless it's suspended without any Python frame of its
+                # own (its run function is implemented in C: another
+                # greenlet's switch method, say). We can tell that from a
+                # greenlet running in another thread by where its parents
+                # lead: to the main greenlet of the thread it belongs to.
+                def root(g: GreenletType) -> GreenletType:
+                    while g.parent is not None:
+                        g = g.parent
+                    return g
+
+                if root(glet) is root(greenlet_getcurrent()):
+                    return []
                 raise RuntimeError(
                     "Can't dump the stack of a greenlet running in another thread"
                 )
